@@ -421,7 +421,7 @@ fn synthesized_components() -> Vec<(String, String)> {
         ("legacy", "CONSUMO, ILU, ELECTRICIDAD, 1, 2\nPRODUCCION, EL_INSITU, 2, 1\nAUX, 1, 1\nCONSUMO, NEPB, ELECTRICIDAD, 1, 1\n"),
         ("output_first", "-1, SALIDA, CAL, 3, 1\n2, CONSUMO, CAL, GASNATURAL, 4, 2\n2, CONSUMO, REF, ELECTRICIDAD, 1, 1\n2, SALIDA, REF, -2, -2\n2, AUX, 1, 0\n"),
         ("aux_only", "1, AUX, 4, 0\n1, CONSUMO, ACS, GASNATURAL, 3, 3\n"),
-        ("two_demands", "DEMANDA, ACS, 3, 3\nDEMANDA, ACS, 1, 2\nDEMANDA, CAL, 5, 5\nDEMANDA, REF, 1, 1\nCONSUMO, ACS, GASNATURAL, 5, 6\n"),
+        ("two_demands", "DEMANDA, ACS, 3, 3\nDEMANDA, ACS, 1, 2\nDEMANDA, REF, 1, 1\nDEMANDA, REF, 2, 3\nDEMANDA, CAL, 5, 5\nDEMANDA, CAL, 1, 1\nCONSUMO, ACS, GASNATURAL, 5, 6\n"),
         ("cogen", "CONSUMO, ILU, ELECTRICIDAD, 3, 1\n2, PRODUCCION, EL_COGEN, 2, 2\n2, CONSUMO, COGEN, GASNATURAL, 5, 5\n2, CONSUMO, COGEN, BIOMASA, 1, 1\nCONSUMO, ACS, BIOMASA, 2, 2\n"),
         ("thermal", "1, CONSUMO, ACS, TERMOSOLAR, 1, 3\n1, PRODUCCION, TERMOSOLAR, 2, 2\n3, CONSUMO, CAL, RED1, 1, 1\n3, CONSUMO, VEN, RED2, 1, 1\nCONSUMO, NEPB, EAMBIENTE, 1, 0\n"),
         ("one_step_meta", "#META CTE_LOCALIZACION: CANARIAS\n#META CTE_RED1: 0.5, 0.5, 0.1\nvector,tipo,src_dst\nCONSUMO, CAL, RED1, 7\n"),
